@@ -254,7 +254,7 @@ func (e *Env) tr(x Expr) TV {
 		res := TV{S: vc.enc.unbox("(if-data "+v.S+")", t), Sort: vc.enc.sortOf(t), Ty: t}
 		if !strings.Contains(v.S, "q$") && !strings.Contains(v.S, "op$") {
 			// a value of this dynamic type satisfies the type's representation invariant
-			vc.emit(implies(eq("(if-tag "+v.S+")", fmt.Sprint(vc.prog.typeTag(t))), vc.typeInv(e.st, res.S, t)))
+			vc.emit(implies(eq("(if-tag "+v.S+")", fmt.Sprint(vc.enc.typeTag(t))), vc.typeInv(e.st, res.S, t)))
 		}
 		return res
 	case *ESpecScope:
@@ -270,7 +270,7 @@ func (e *Env) tr(x Expr) TV {
 		if t == nil {
 			e.fail("type literal of spec-only type")
 		}
-		return TV{S: fmt.Sprint(vc.prog.typeTag(t)), Sort: sInt, Ty: nil}
+		return TV{S: fmt.Sprint(vc.enc.typeTag(t)), Sort: sInt, Ty: nil}
 	}
 	e.fail("unsupported expression %T", x)
 	return TV{}
@@ -404,7 +404,7 @@ func (e *Env) toIface(v TV) TV {
 	if b, ok := t.Underlying().(*types.Basic); ok && b.Info()&types.IsUntyped != 0 {
 		t = types.Default(t)
 	}
-	tag := e.vc.prog.typeTag(t)
+	tag := e.vc.enc.typeTag(t)
 	bx := e.vc.enc.box(v.S, t)
 	if f := e.vc.enc.boxFact(v.S, t); f != "true" && !strings.Contains(v.S, "q$") {
 		e.vc.emit(f)
@@ -497,7 +497,7 @@ func (e *Env) binary(n *EBin) TV {
 				x := e.tr(call.Args[0])
 				if x.Sort == sIface && !strings.Contains(x.S, "q$") {
 					bx := vc.enc.box(vc.enc.zero(t), t)
-					vc.emit(implies(eq("(if-tag "+x.S+")", fmt.Sprint(vc.prog.typeTag(t))), eq("(if-data "+x.S+")", bx)))
+					vc.emit(implies(eq("(if-tag "+x.S+")", fmt.Sprint(vc.enc.typeTag(t))), eq("(if-data "+x.S+")", bx)))
 				}
 			}
 		}
